@@ -199,7 +199,7 @@ def run_check(mod, tier, seed, workers=None, keep_digests=False, extra_env=None,
             f = F.classify(prop, v["sig"], known)
             path = os.path.join(REPLAYS, f"{prop}-{derive(k) % 16**10:010x}.json")
             with open(path, "w") as fh:
-                json.dump(v["replay"], fh, indent=1, sort_keys=True)
+                json.dump(v["replay"], fh, indent=1)  # key order is part of some cases (dict order of preference intervals)
             if v["replay"].get("no_reexec"):
                 ok = True
             else:
